@@ -1111,3 +1111,299 @@ var ruleSwitchDefault = &Rule{
 		return obs
 	},
 }
+
+// LOC/line-terminators: whoever counts lines counts them the same way.
+
+var lineCounters = [][3]string{ // pkg path, receiver, function: the position <-> offset converters
+	{lspcommonPkg, "", "OffsetForPosition"},
+	{lspcommonPkg, "", "offsetForStartAndEnd"},
+}
+
+var ruleLineTerminators = &Rule{
+	Name:    "LOC/line-terminators",
+	NeedSSA: true,
+	Text: "the position-to-offset converters (lspcommon.OffsetForPosition, offsetForStartAndEnd) compare the bytes of the document with the same set of line-terminator " +
+		"characters as the lexer's newline predicate (lexer.isNewLine: '\\n' and '\\r'): a line number computed by the one and consumed by the other refers to the same line " +
+		"only if both end lines at the same bytes (LSP: \"\\n\", \"\\r\\n\" and \"\\r\")",
+	Run: func(c *Ctx) []Ob {
+		var obs []Ob
+		setOf := func(f *ssa.Function) map[int64]bool {
+			out := map[int64]bool{}
+			if f == nil {
+				return out
+			}
+			var fns []*ssa.Function
+			fns = append(fns, f)
+			fns = append(fns, f.AnonFuncs...)
+			for _, g := range fns {
+				for _, b := range g.Blocks {
+					for _, ins := range b.Instrs {
+						bo, ok := ins.(*ssa.BinOp)
+						if !ok || (bo.Op != token.EQL && bo.Op != token.NEQ) {
+							continue
+						}
+						for _, v := range []ssa.Value{bo.X, bo.Y} {
+							if k, ok := v.(*ssa.Const); ok && k.Value != nil && k.Value.Kind() == constant.Int {
+								if n, ok := constant.Int64Val(k.Value); ok && (n == 10 || n == 13) {
+									if bt, ok := k.Type().Underlying().(*types.Basic); ok && (bt.Kind() == types.Uint8 || bt.Kind() == types.Int32 || bt.Kind() == types.UntypedRune) {
+										out[n] = true
+									}
+								}
+							}
+						}
+					}
+				}
+			}
+			return out
+		}
+		ref := setOf(c.SSAFunc(lexerPkg, "", "isNewLine"))
+		if len(ref) == 0 {
+			return []Ob{{Key: "LOC/line-terminators:slot", Verdict: UNDECIDED, Note: "lexer.isNewLine not found or compares with no line terminator"}}
+		}
+		name := func(m map[int64]bool) string {
+			s := ""
+			if m[10] {
+				s += `'\n' `
+			}
+			if m[13] {
+				s += `'\r' `
+			}
+			if s == "" {
+				s = "(none) "
+			}
+			return s
+		}
+		n := 0
+		for _, lc := range lineCounters {
+			f := c.SSAFunc(lc[0], lc[1], lc[2])
+			key := "LOC/line-terminators:" + lc[2]
+			if f == nil {
+				obs = append(obs, Ob{Key: key, Verdict: UNDECIDED, Note: "slot unresolved: " + lc[2]})
+				continue
+			}
+			n++
+			got := setOf(f)
+			if got[10] == ref[10] && got[13] == ref[13] {
+				obs = append(obs, Ob{Key: key, Site: c.Pos(f.Pos()), Verdict: OK, Note: "line terminators: " + name(got)})
+			} else {
+				obs = append(obs, Ob{Key: key, Site: c.Pos(f.Pos()), Verdict: VIOLATION,
+					Note: lc[2] + " ends lines at " + name(got) + "but the lexer at " + name(ref) + ": in a document that uses the other terminator, line numbers of requests and of analysis results refer to different lines"})
+			}
+		}
+		obs = append(obs, floor("LOC/line-terminators", "position converters compared with the lexer", n, 2))
+		return obs
+	},
+}
+
+// LOC/outline-range-has-name: an outline entry's range is never the function's range alone.
+
+var ruleOutlineFuncRange = &Rule{
+	Name:    "LOC/outline-func-range",
+	NeedSSA: true,
+	Text: "no assignment to FileSymbolStruct.Loc (the range of a document-symbol entry) copies FuncInfo.Loc (the range of a function expression) directly: " +
+		"the function's range starts at the `function` keyword, so for `name = function() end`, `local name = function() end` and `t.f = function() end` " +
+		"it does not contain the declaring identifier; the value must come from the declaring variable's own Loc or from a helper that is given both",
+	Run: func(c *Ctx) []Ob {
+		var obs []Ob
+		n := 0
+		fromFuncLoc := func(v ssa.Value) bool {
+			ld, ok := v.(*ssa.UnOp)
+			if !ok || ld.Op != token.MUL {
+				return false
+			}
+			fa, ok := ld.X.(*ssa.FieldAddr)
+			if !ok || fieldName(fa.X.Type(), fa.Field) != "Loc" {
+				return false
+			}
+			_, nm := namedPkgName(fa.X.Type())
+			return nm == "FuncInfo"
+		}
+		for _, f := range c.ModFns() {
+			cnt := 0
+			for _, b := range f.Blocks {
+				for _, ins := range b.Instrs {
+					st, ok := ins.(*ssa.Store)
+					if !ok {
+						continue
+					}
+					fa, ok := st.Addr.(*ssa.FieldAddr)
+					if !ok || fieldName(fa.X.Type(), fa.Field) != "Loc" {
+						continue
+					}
+					if _, nm := namedPkgName(fa.X.Type()); nm != "FileSymbolStruct" {
+						continue
+					}
+					n++
+					cnt++
+					key := fmt.Sprintf("LOC/outline-func-range:%s#%d", fnKey(f), cnt)
+					if fromFuncLoc(st.Val) {
+						obs = append(obs, Ob{Key: key, Site: c.Pos(st.Pos()), Verdict: VIOLATION,
+							Note: "the outline entry takes the range of the function expression alone: it starts at the `function` keyword and does not contain the name when the function is bound by assignment"})
+					} else {
+						obs = append(obs, Ob{Key: key, Site: c.Pos(st.Pos()), Verdict: OK})
+					}
+				}
+			}
+		}
+		obs = append(obs, floor("LOC/outline-func-range", "assignments to the range of an outline entry", n, 6))
+		return obs
+	},
+}
+
+// LOC/symbol-file-pairing: a (file, location) pair comes from one variable.
+
+var ruleSymbolFilePairing = &Rule{
+	Name:    "LOC/symbol-file-pairing",
+	NeedSSA: true,
+	Text: "where a FileSymbolStruct is built with both a FileName and a Loc, and the Loc is read from a VarInfo (v.Loc), the FileName is read from the same VarInfo " +
+		"(v.FileName, possibly with a fallback): a location is a place inside ONE file, and a variable reached through another file's table " +
+		"(a member added to a global table from elsewhere) is not declared in the file being scanned. Also: the loop that lists the members of a global table " +
+		"under it in FileResult.FindAllSymbol tests the member's FileName, so the outline of a file only lists what that file declares",
+	Run: func(c *Ctx) []Ob {
+		var obs []Ob
+		n := 0
+		varInfoField := func(v ssa.Value, field string) (ssa.Value, bool) { // v = load(v0.<field>) with v0 *VarInfo
+			ld, ok := v.(*ssa.UnOp)
+			if !ok || ld.Op != token.MUL {
+				return nil, false
+			}
+			fa, ok := ld.X.(*ssa.FieldAddr)
+			if !ok || fieldName(fa.X.Type(), fa.Field) != field {
+				return nil, false
+			}
+			if _, nm := namedPkgName(fa.X.Type()); nm != "VarInfo" {
+				return nil, false
+			}
+			return fa.X, true
+		}
+		var derivesFrom func(v ssa.Value, owner ssa.Value, d int) bool
+		derivesFrom = func(v ssa.Value, owner ssa.Value, d int) bool {
+			if d > 6 {
+				return false
+			}
+			if o, ok := varInfoField(v, "FileName"); ok && o == owner {
+				return true
+			}
+			if phi, ok := v.(*ssa.Phi); ok {
+				for _, e := range phi.Edges {
+					if derivesFrom(e, owner, d+1) {
+						return true
+					}
+				}
+			}
+			return false
+		}
+		for _, f := range c.ModFns() {
+			cnt := 0
+			for _, b := range f.Blocks {
+				for _, ins := range b.Instrs {
+					al, ok := ins.(*ssa.Alloc)
+					if !ok {
+						continue
+					}
+					if _, nm := namedPkgName(al.Type()); nm != "FileSymbolStruct" {
+						continue
+					}
+					var locOwner ssa.Value
+					var fileVal ssa.Value
+					if refs := al.Referrers(); refs != nil {
+						for _, r := range *refs {
+							fa, ok := r.(*ssa.FieldAddr)
+							if !ok {
+								continue
+							}
+							if frefs := fa.Referrers(); frefs != nil {
+								for _, rr := range *frefs {
+									st, ok := rr.(*ssa.Store)
+									if !ok || st.Addr != ssa.Value(fa) {
+										continue
+									}
+									switch fieldName(fa.X.Type(), fa.Field) {
+									case "Loc":
+										if o, ok := varInfoField(st.Val, "Loc"); ok && locOwner == nil {
+											locOwner = o
+										}
+									case "FileName":
+										if fileVal == nil {
+											fileVal = st.Val
+										}
+									}
+								}
+							}
+						}
+					}
+					if locOwner == nil || fileVal == nil {
+						continue
+					}
+					n++
+					cnt++
+					key := fmt.Sprintf("LOC/symbol-file-pairing:%s#%d", fnKey(f), cnt)
+					if derivesFrom(fileVal, locOwner, 0) {
+						obs = append(obs, Ob{Key: key, Site: c.Pos(al.Pos()), Verdict: OK, Note: "file and location are read from the same variable"})
+					} else {
+						obs = append(obs, Ob{Key: key, Site: c.Pos(al.Pos()), Verdict: VIOLATION,
+							Note: "the entry's location is read from a variable but its file is not: a variable reached through another file's table is reported at its line and column in the wrong file"})
+					}
+				}
+			}
+		}
+		// the member loop of FindAllSymbol tests the member's file
+		fas := c.SSAFunc(resultsPkg, "FileResult", "FindAllSymbol")
+		if fas == nil {
+			obs = append(obs, Ob{Key: "LOC/symbol-file-pairing:FindAllSymbol:slot", Verdict: UNDECIDED, Note: "slot unresolved: FileResult.FindAllSymbol"})
+		} else {
+			// calls of FindAllVar on a member must be dominated by a string comparison involving the member's FileName
+			cnt := 0
+			for _, b := range fas.Blocks {
+				for _, ins := range b.Instrs {
+					call, ok := ins.(*ssa.Call)
+					if !ok {
+						continue
+					}
+					g := call.Call.StaticCallee()
+					if g == nil || g.Name() != "FindAllVar" || len(call.Call.Args) == 0 {
+						continue
+					}
+					member := call.Call.Args[0]
+					cnt++
+					n++
+					key := fmt.Sprintf("LOC/symbol-file-pairing:FindAllSymbol:members#%d", cnt)
+					guarded := false
+					for d := b; d != nil && !guarded; d = d.Idom() {
+						id := d.Idom()
+						if id == nil {
+							break
+						}
+						iff, ok := id.Instrs[len(id.Instrs)-1].(*ssa.If)
+						if !ok {
+							continue
+						}
+						bo, ok := iff.Cond.(*ssa.BinOp)
+						if !ok || (bo.Op != token.EQL && bo.Op != token.NEQ) || !isStringType(bo.X.Type()) {
+							continue
+						}
+						for _, v := range []ssa.Value{bo.X, bo.Y} {
+							if o, ok := varInfoField(v, "FileName"); ok && o == member {
+								eq := id.Succs[0]
+								if bo.Op == token.NEQ {
+									eq = id.Succs[1]
+								}
+								if eq == d || eq.Dominates(b) {
+									guarded = true
+								}
+							}
+						}
+					}
+					if guarded {
+						obs = append(obs, Ob{Key: key, Site: c.Pos(call.Pos()), Verdict: OK, Note: "only members declared in this file are listed"})
+					} else {
+						obs = append(obs, Ob{Key: key, Site: c.Pos(call.Pos()), Verdict: VIOLATION,
+							Note: "the outline lists the members of a table without testing which file declares them: members added by other files appear with ranges outside this document"})
+					}
+				}
+			}
+		}
+		obs = append(obs, floor("LOC/symbol-file-pairing", "symbol entries with file and location + member loops", n, 3))
+		return obs
+	},
+}
